@@ -70,7 +70,7 @@ def streams(rng, tier):
     q = tier == "quick"
     out = []
     # ---- ELF decoding
-    for _ in range(2500 if q else 60000):
+    for _ in range(4000 if q else 60000):
         data, exp = G.rand_elf(rng)
         out.append(Case("elf", "p.elf", [G.b2s(data)]))
         if exp is not None:
@@ -79,7 +79,7 @@ def streams(rng, tier):
     for d in [b"", b"\x7fELF", b"\x7fELF\x01\x01" + b"\0" * 10, b"\x7fELF\x02\x02" + b"\0" * 58, b"\x7fELF\x01\x02" + b"\0" * 46, b"\x7fELF\x03\x01" + b"\0" * 60, b"MZ" + b"\0" * 62]:
         out.append(Case("elf", "p.elf", [G.b2s(d)]))
     # ---- manylinux
-    for _ in range(900 if q else 25000):
+    for _ in range(2500 if q else 25000):
         archs = rng.choice(G.ARCH_LISTS if rng.random() < 0.35 else G.GOOD_ARCH_LISTS)
         cs, ct, exe, pol, _ = linux_args(rng, archs)
         if rng.random() < 0.5: exe = exe_for(rng, archs)
@@ -88,14 +88,14 @@ def streams(rng, tier):
         for m in range(0, 53 if not q else 22):
             for archs in (["x86_64"], ["aarch64"]):
                 out.append(Case("manylinux-sweep", "p.many", [enc_list(archs), "Sglibc %d.%d" % (M, m), "I", "X", rng.choice(["-", "MFFF", "M---:T;2.17.*=F;2.5.*=N;2.12.*=Z"])]))
-    for _ in range(250 if q else 8000):
+    for _ in range(500 if q else 8000):
         archs = rng.choice([a for a in G.ARCH_LISTS if a])
         M = rng.choice([2, 2, 2, 3, 1]); m = rng.randrange(0, 56); m2 = rng.choice([m, m + 1, m + rng.randrange(0, 20), rng.randrange(0, 56)])
         out.append(Case("law-manylinux", "law.p.many", [enc_list(archs), str(M), str(m), str(m2), G.rand_policy(rng, archs), exe_for(rng, archs)], kind="law"))
     for _ in range(30 if q else 500):
         out.append(Case("law-cache", "law.p.cache", [enc_list(rng.choice([["x86_64"], ["aarch64"]])), "2", str(rng.randrange(0, 50)), str(rng.choice([2, 3])), str(rng.randrange(0, 50))], kind="law"))
     # ---- musllinux
-    for _ in range(700 if q else 20000):
+    for _ in range(1500 if q else 20000):
         archs = rng.choice(G.ARCH_LISTS if rng.random() < 0.5 else G.GOOD_ARCH_LISTS)
         out.append(Case("musllinux", "p.musl", [enc_list(archs), musl_exe(rng), G.rand_musl_output(rng)]))
     good = "F" + G.b2s(G.rand_elf(rng, clean=True, file_safe=True)[0])
@@ -127,14 +127,14 @@ def streams(rng, tier):
     # ---- _linux_platforms and the platform_tags() dispatch
     PLATS = ["linux-x86_64", "linux-aarch64", "linux-armv7l", "linux-armv8l", "linux-i686", "linux-ppc64le", "linux-s390x", "linux-riscv64", "linux-mips",
              "linux_x86_64", "linux x86_64", "Linux-x86_64", "linux", "linux-", "freebsd-13.2-amd64", "win-amd64", "macosx-11.0-arm64", "linux-x86-64", "linux-loongarch64"]
-    for _ in range(500 if q else 12000):
+    for _ in range(1000 if q else 12000):
         plat = rng.choice(PLATS)
         is32 = rng.choice("TFF")
         arch = plat.replace("-", "_").replace(" ", "_").split("_", 1)[-1]
         if is32 == "T": arch = {"x86_64": "i686", "aarch64": "armv8l"}.get(arch, arch)
         archs = ["armv8l", "armv7l"] if arch == "armv8l" else [arch]
         out.append(Case("linux", "p.linux", [is32, plat] + linux_args(rng, archs)))
-    for _ in range(400 if q else 10000):
+    for _ in range(800 if q else 10000):
         system = rng.choice(["Linux", "Linux", "Darwin", "iOS", "Windows", "FreeBSD", "", "linux", "Java"])
         plat = rng.choice(PLATS)
         arch = plat.replace("-", "_").replace(" ", "_").split("_", 1)[-1]
